@@ -212,7 +212,7 @@ def checkPreimage (env : Env) (preimage data : String) : Outcome :=
   | none => .err .invalidPreimage
   | some bytes =>
     let hash := env.sha256hex bytes
-    if data.length ≠ 64 then .err .invalidHash
+    if data.utf8ByteSize ≠ 64 then .err .invalidHash
     else if hash ≠ data then .err .invalidPreimage
     else .ok ()
 
